@@ -378,8 +378,9 @@ def who_may_write(prog, chk):
             ok = (mentions(f["attributes"], lambda x: x.k == "field" and x.a[1] == "attributes")
                   and mentions(f["attributes"], lambda x: x.k == "call" and re.search(r"Iterator>::collect::<", x.a[0]) is not None)
                   and mentions(f["attributes"], lambda x: x.k == "call" and re.search(r"Iterator>::map::<", x.a[0]) is not None)
-                  and pm(f["attribute_types"], ("call", r"SmallVec<.*> as std::clone::Clone>::clone$", [("field", ("param", "self"), "attribute_types")]), b))
-            chk.ob(rule, "into_owned maps attributes element-wise in order and clones attribute_types", ok, c["where"],
+                  and (pm(f["attribute_types"], ("call", r"SmallVec<.*> as std::clone::Clone>::clone$", [("field", ("param", "self"), "attribute_types")]), b)
+                       or pm(f["attribute_types"], ("field", ("param", "self"), "attribute_types"), b)))       # a copy of the type list, or the list itself moved
+            chk.ob(rule, "into_owned maps attributes element-wise in order and keeps the list of types (cloned or moved)", ok, c["where"],
                    detail="%r / %r" % (f["attributes"], f["attribute_types"]))
 
 
